@@ -62,6 +62,8 @@ def parse_type(s):
     if s.startswith("Dict[") and s.endswith("]"):
         t = parse_type("Tuple[" + s[5:-1] + "]")
         return ("Dict", t[1][0], t[1][1])
+    if s.startswith("Lean:"):
+        return ("Lean", s[5:])   # a parameter that stands for untranslated code (a relation, a callee): its Lean type verbatim
     if s in ("Time", "Dur"):
         return "Int"    # datetime / timedelta in microseconds (the distinction only matters to the validation harness)
     if s in ("Int", "Rat", "Bool", "Val", "Unit", "Nat", "Obj"):
@@ -80,6 +82,8 @@ def lean_type(t):
         return f"(List ({lean_type(t[1])} × {lean_type(t[2])}))"
     if t[0] in ("List", "Set"):
         return f"(List {lean_type(t[1])})"
+    if t[0] == "Lean":
+        return t[1]
     if t[0] == "Opt":
         return f"(Option {lean_type(t[1])})"
     if t[0] == "Tuple":
@@ -307,7 +311,7 @@ class Tr:
         if isinstance(node, ast.UnaryOp):
             if isinstance(node.op, ast.Not):
                 b, c = self.C(node.operand, env)
-                return b, f"decide (¬ {c})", "Bool"
+                return b, f"(decide (¬ {c}))", "Bool"
             if isinstance(node.op, ast.USub):
                 b, c, t = self.E(node.operand, env)
                 b2, c, t = self.unopt(b, c, t)
@@ -316,7 +320,7 @@ class Tr:
             return self.binop(node.op, node.left, node.right, env)
         if isinstance(node, (ast.Compare, ast.BoolOp)):
             b, c = self.C(node, env)
-            return b, f"decide ({c})", "Bool"
+            return b, f"(decide ({c}))", "Bool"
         if isinstance(node, ast.IfExp):
             bc, cc = self.C(node.test, env)
             b1, c1, t1 = self.E(node.body, env)
@@ -1209,7 +1213,26 @@ class Tr:
         return bf + [f"{nm} {self.callpre()}{' '.join(vs)} {cf}"]
 
     # ---- whole function --------------------------------------------------------------------
+    @staticmethod
+    def hoist_walrus(stmts):
+        """`x = (y := e) is None` -> `y = e; x = y is None`: an assignment expression that is the first thing its statement
+        evaluates (the left end of a comparison that is the whole right-hand side) is hoisted in front of the statement"""
+        out = []
+        for st in stmts:
+            if (isinstance(st, ast.Assign) and isinstance(st.value, ast.Compare) and isinstance(st.value.left, ast.NamedExpr)
+                    and not any(isinstance(n, ast.NamedExpr) for c in st.value.comparators for n in ast.walk(c))):
+                ne = st.value.left
+                out.append(ast.copy_location(ast.Assign(targets=[ast.Name(id=ne.target.id, ctx=ast.Store())], value=ne.value), st))
+                out.append(ast.copy_location(ast.Assign(targets=st.targets, value=ast.Compare(
+                    left=ast.Name(id=ne.target.id, ctx=ast.Load()), ops=st.value.ops, comparators=st.value.comparators)), st))
+            else:
+                out.append(st)
+        for st in out:
+            ast.fix_missing_locations(st)
+        return out
+
     def translate(self):
+        self.fn.body = self.hoist_walrus(list(self.fn.body))
         env = {}
         for f, t in self.fields.items():
             env["self_" + f] = t
@@ -1319,7 +1342,8 @@ def translate_spec(spec, src_root):
             fn = slice_function(fn, spec)
         text = Tr(spec, fn).translate()
         deps = sorted({h["lean"] for h in spec.get("calls", {}).values()
-                       if isinstance(h, dict) and not h["lean"].startswith("Py.")} - {spec["lean"]})
+                       if isinstance(h, dict) and not h["lean"].startswith("Py.")
+                       and h["lean"] not in spec.get("extra_params", {})} - {spec["lean"]})
         header = header.replace("import FinamModel.PyPrelude\n", "import FinamModel.PyPrelude\n"
                                 + "".join(f"import FinamModel.Translated.{d}\n" for d in deps))
         return header + text + "\n\nend Finam.Tr\n", None
@@ -1408,6 +1432,20 @@ def driver_source(specs, status, src_root):
                  + len(spec.get("extra_params", {})))
             imports.append(f"import FinamModel.Translated.{spec['lean']}")
             cases.append(f'  | "{spec["lean"]}" => toJ (Tr.{spec["lean"]} ' + " ".join(f"(fromJ (argAt args {i}))" for i in range(n)) + ")")
+            continue
+        if spec.get("group") == "Info":
+            # the relations of the package (compatible_with, compatible_units, masks_equal) come as tables
+            imports.append(f"import FinamModel.Translated.{spec['lean']}")
+            me = ("(fun a b g1 g2 => Except.ok (((fromJ (argAt args K)) : List ((Option Int × Option Int) × (Option Nat × Option Nat)))"
+                  ".contains ((a, b), (g1, g2))))")
+            if spec["lean"] == "masks_compatible":
+                cases.append('  | "masks_compatible" => toJ (Tr.masks_compatible (fromJ (argAt args 0)) (fromJ (argAt args 1)) '
+                             '(fromJ (argAt args 2)) (fromJ (argAt args 3)) (fromJ (argAt args 4)) ' + me.replace("K", "5") + ")")
+            elif spec["lean"] == "Info_accepts":
+                cases.append('  | "Info_accepts" => toJ (Tr.Info_accepts (fromJ (argAt args 0)) (fromJ (argAt args 1)) (fromJ (argAt args 2)) '
+                             '(fromJ (argAt args 3)) (fromJ (argAt args 4)) (fromJ (argAt args 5)) (fromJ (argAt args 6)) '
+                             '(fun g h => ((fromJ (argAt args 7)) : List (Nat × Option Nat)).contains (g, h)) '
+                             '(fun a b => ((fromJ (argAt args 8)) : List (Nat × Nat)).contains (a, b)) ' + me.replace("K", "9") + ")")
             continue
         if spec.get("group") == "Units":
             imports.append(f"import FinamModel.Translated.{spec['lean']}")
